@@ -257,6 +257,33 @@ SCRIPTS = [
 ]
 
 
+def generated_scripts(F, ctx="segwitv0", limit=120):
+    """two-level compositions over B sub-scripts, kept when the library types them as B (thorough tier)"""
+    from . import c06
+    subs = ["pk(A)", "pkh(B)", "multi(1,C,D)" if ctx != "tap" else "multi_a(1,C,D)", "and_v(v:pk(E),older(7))",
+            "or_d(pk(F),pk(G))", "thresh(2,pk(H),s:pk(I),s:pk(J))"]
+    cands = []
+    for x in subs:
+        for y in subs:
+            if x == y:
+                continue
+            cands += ["and_v(v:%s,%s)" % (x, y), "and_b(%s,a:%s)" % (x, y), "or_b(%s,a:%s)" % (x, y), "or_d(%s,%s)" % (x, y),
+                      "or_i(%s,%s)" % (x, y), "andor(%s,%s,pk(Z))" % (x, y), "thresh(2,%s,a:%s,s:pk(Z))" % (x, y),
+                      "t:or_c(%s,v:%s)" % (x, y), "j:and_v(v:%s,%s)" % (x, y)]
+    T_ = c06.Typer(F)
+    out = []
+    for t in cands:
+        try:
+            lab = T_.type_of(t, ctx)
+        except (Unsupported, Panic):
+            lab = None
+        if lab and lab["base"] == "B":
+            out.append((t, ctx))
+        if len(out) >= limit:
+            break
+    return out
+
+
 def alphabet(ast, ctx):
     kk = X.keykind(ctx)
     keys, hashes = set(), set()
@@ -436,7 +463,11 @@ def check_iter(chk, F):
         if not good:
             raise Unsupported("family script %s [%s] is not a well-typed B miniscript: %r" % (text, ctx, r))
     import multiprocessing as mp
-    jobs = [(t, c, chk.tier) for (t, c) in SCRIPTS]
+    scripts = list(SCRIPTS)
+    if chk.tier != "quick":
+        scripts += generated_scripts(F, "segwitv0") + generated_scripts(F, "tap", 60)
+        chk.extra["R13_generated_scripts"] = len(scripts) - len(SCRIPTS)
+    jobs = [(t, c, chk.tier) for (t, c) in scripts]
     with mp.Pool(min(16, os.cpu_count() or 4)) as pool:
         results = pool.map(_work, jobs, chunksize=1)
     n_cases = 0
